@@ -294,6 +294,8 @@ fn err_class(e: &RelationalError) -> String {
         RelationalError::RollbackFailed { .. } => "rollback_failed".into(),
         RelationalError::TableAlreadyExists(_) => "table_exists".into(),
         RelationalError::NullNotAllowed(_) | RelationalError::TypeMismatch { .. } => "bad_input".into(),
+        // `btree_index_add` at `max_btree_entries` (the only producer reachable from the statements driven here)
+        RelationalError::ResultTooLarge { .. } => "too_large".into(),
         other => {
             let d = format!("{other:?}");
             format!("other:{}", d.split(|c: char| !c.is_alphanumeric()).next().unwrap_or("?"))
@@ -413,11 +415,17 @@ fn rows_tok(rows: &[(u64, Vec<i64>)]) -> String {
 
 impl World {
     fn new(cfg: Cfg) -> World {
-        let eng = RelationalEngine::with_config(
-            RelationalConfig::default()
-                .with_lock_timeout_secs(cfg.lock_secs)
-                .with_transaction_timeout_secs(cfg.tx_secs),
-        );
+        World::new_capped(cfg, None)
+    }
+    /// `btree_cap`: an engine whose ordered indexes may hold that many keys altogether (`max_btree_entries`)
+    fn new_capped(cfg: Cfg, btree_cap: Option<usize>) -> World {
+        let mut rc = RelationalConfig::default()
+            .with_lock_timeout_secs(cfg.lock_secs)
+            .with_transaction_timeout_secs(cfg.tx_secs);
+        if let Some(cap) = btree_cap {
+            rc = rc.with_max_btree_entries(cap);
+        }
+        let eng = RelationalEngine::with_config(rc);
         World {
             eng,
             ntables: 0,
@@ -3066,6 +3074,764 @@ fn race_stress_stream(rep: &mut Report, thorough: bool, hook_seen: bool) {
     }
 }
 
+// ------------------------------------------------------------------ statements that fail part-way (b-tree entry cap)
+//
+// `CapModel.lean`: every step inside a row of tx_insert / tx_update / tx_delete returns with `?`; the one that can fail in
+// an in-memory engine is `btree_index_add` at `RelationalConfig::max_btree_entries` (ResultTooLarge), which strikes AFTER
+// the row's hash-index moves and the removal of its old b-tree entry.  The scripts below run on engines with a cap of a
+// few keys, so such failures actually occur, and follow them by rollback and the full index sweep.
+//
+// Oracles on the real engine's own answers (independent of the model):
+//   * a rollback that answers Ok restores the pre-image of every row the transaction touched — also rows matched by a
+//     statement that failed part-way — and after it every index-served answer (Eq through each hash index, the ranges
+//     through each b-tree index) is the filter of the full scan: classes
+//     relational_engine.rollback/index_entry_not_restored_after_failed_statement, …/duplicate_row_in_index_answer_after_failed_statement,
+//     …/row_not_restored_after_failed_statement (the transaction had a statement refused at the cap), and the generic
+//     …/index_answer_missing_row, …/row_not_restored otherwise;
+//   * a non-transactional update / delete refused at the cap has rolled itself back: no row changed, every index answer
+//     exact (relational_engine.update/failed_statement_changed_rows, …/index_entry_not_restored_after_failed_statement);
+//   * a tx_update / tx_delete that fails changes no row content (…/failed_statement_changed_rows);
+//   * a rollback refuses (RollbackFailed) only when somebody else wrote between the transaction's first write and its
+//     rollback (relational_engine.rollback/failed_without_interference);
+//   * the index sweep runs after EVERY statement; the rows a refused statement matched are left out of it while that
+//     transaction is open (their index entries are legitimately half-moved until it rolls back) and come back in at its
+//     rollback.
+// Behaviour of the UNCHANGED code that these scripts expose and that is recorded with `observe` (candidate findings, see
+// the end of `main`), with the affected rows left out of later sweeps: a refused tx_insert / insert leaves its row behind;
+// a rollback whose re-insertion of a b-tree key is refused at the cap because another writer used the freed capacity;
+// a commit after a refused statement makes the half-moved row permanent.
+
+struct CapHd {
+    open: bool,
+    first_touch: BTreeMap<Key, Option<Vec<i64>>>,
+    clobbered: BTreeSet<Key>,
+    /// rows matched by statements of this transaction that were refused at the cap
+    partial: BTreeSet<Key>,
+    /// somebody else wrote (any table: the cap is engine wide) after this transaction's first write
+    foreign_write: bool,
+    /// the transaction wrote a row that a refused insert had left behind (alive, without its b-tree entry): what its
+    /// statements and their undo do to the key count no longer cancel
+    wrote_leftover_row: bool,
+    /// the transaction went on writing a row that one of its own refused statements had left half-moved (old b-tree
+    /// entry gone, slab row unchanged): the later statement's undo entry describes the slab row, not the index
+    rewrote_half_moved_row: bool,
+}
+
+fn cap_json(cap: usize, ops: &[Op]) -> J {
+    json!({"cfg": {"max_btree_entries": cap, "lock_timeout_secs": 30, "transaction_timeout_secs": 60},
+           "script": ops.iter().map(|o| o.show()).collect::<Vec<_>>()})
+}
+
+/// Run a script on a fresh engine with `max_btree_entries = cap` (and on the model, told the same cap, when given).
+fn exec_cap(ops: &[Op], cap: usize, mut model: Option<&mut Model>) -> Outcome {
+    let cfg = Cfg { lock_secs: 30, tx_secs: 60, wide: false, nulls: false };
+    let mut out = Outcome::default();
+    let mut w = World::new_capped(cfg, Some(cap));
+    if let Some(m) = model.as_deref_mut() {
+        let a = m.ask(&format!("init {} {}", w.lock_ms, w.tx_ms));
+        let b = m.ask(&format!("cap {cap}"));
+        if a != "ok" || b != "ok" {
+            out.disagreements.push(("stmt".into(), json!("init/cap"), "ok".into(), format!("{a} / {b}")));
+            return out;
+        }
+    }
+    let cmp = |out: &mut Outcome, stream: &str, step: usize, what: &str, imp: &str, mdl: &str| -> bool {
+        *out.compared.entry(stream.to_string()).or_insert(0) += 1;
+        if imp != mdl {
+            let mut j = cap_json(cap, ops);
+            j["at_step"] = json!(step);
+            j["query"] = json!(what);
+            out.disagreements.push((stream.to_string(), j, imp.to_string(), mdl.to_string()));
+            false
+        } else {
+            true
+        }
+    };
+    let mut diverged = false;
+    macro_rules! mdl {
+        () => {
+            if diverged { None } else { model.as_deref_mut() }
+        };
+    }
+    let mut hds: BTreeMap<usize, CapHd> = BTreeMap::new();
+    // rows left out of the index sweeps for good (candidate findings of the unchanged code, recorded with `observe`)
+    let mut taint: BTreeSet<Key> = BTreeSet::new();
+    let mut idx_reported: BTreeSet<(usize, usize, bool)> = BTreeSet::new();
+    for (step, op) in ops.iter().enumerate() {
+        out.steps_done = step + 1;
+        w.step_now = step;
+        let before = w.images();
+        let r_real = w.exec_real(op);
+        let site = op.site();
+        let after = w.images();
+        // ---- model statement
+        if !matches!(op, Op::Sweep) {
+            if let Some(m) = mdl!() {
+                let line = op.line(&|h| w.model_tx(h));
+                let a = m.ask(&line);
+                if let Op::Begin(h) = op {
+                    let mid = a.strip_prefix("ok ").and_then(|x| x.parse::<u64>().ok());
+                    let rid = r_real.strip_prefix("begin ").and_then(|x| x.parse::<u64>().ok());
+                    match (mid, rid) {
+                        (Some(mid), Some(rid)) => { w.handles.insert(*h, new_hd(rid, mid, 0)); },
+                        _ => {
+                            cmp(&mut out, "stmt", step, &line, &r_real, &a);
+                            diverged = true;
+                            if let Some(rid) = rid {
+                                w.handles.insert(*h, new_hd(rid, 0, 0));
+                            }
+                        },
+                    }
+                } else if !cmp(&mut out, "stmt", step, &line, &r_real, &a) {
+                    diverged = true;
+                }
+            } else if let Op::Begin(h) = op {
+                if let Some(rid) = r_real.strip_prefix("begin ").and_then(|x| x.parse::<u64>().ok()) {
+                    w.handles.insert(*h, new_hd(rid, 0, 0));
+                }
+            }
+        }
+        if let Op::Begin(h) = op {
+            hds.insert(*h, CapHd { open: true, first_touch: BTreeMap::new(), clobbered: BTreeSet::new(), partial: BTreeSet::new(), foreign_write: false, wrote_leftover_row: false, rewrote_half_moved_row: false });
+        }
+        let ok = r_real.starts_with("ok") || r_real.starts_with("begin") || r_real.starts_with("rows");
+        let too_large = r_real == "err too_large";
+        out.hit(&format!("cap:op:{site}:{}", if ok { "ok".to_string() } else { r_real.replace("err ", "") }));
+
+        // ---- diff of the real full-scan images
+        let mut diff: Vec<(Key, Option<Vec<i64>>, Option<Vec<i64>>)> = vec![];
+        for t in 0..before.len().min(after.len()) {
+            let keys: BTreeSet<u64> = before[t].keys().chain(after[t].keys()).copied().collect();
+            for k in keys {
+                let (b, a) = (before[t].get(&k), after[t].get(&k));
+                if b != a {
+                    diff.push(((t, k), b.cloned(), a.cloned()));
+                }
+            }
+        }
+        if !diff.is_empty() {
+            out.nontrivial = true;
+        }
+        let actor: Option<usize> = match op {
+            Op::TxInsert(h, ..) | Op::TxUpdate(h, ..) | Op::TxDelete(h, ..) | Op::Commit(h) | Op::Rollback(h) => Some(*h),
+            _ => None,
+        };
+        let actor_open = actor.is_some_and(|h| hds.get(&h).is_some_and(|x| x.open));
+        // rows the statement's condition matched before it ran
+        let matched: Vec<Key> = match op {
+            Op::TxUpdate(_, t, c, _) | Op::TxDelete(_, t, c) | Op::Update(t, c, _) | Op::Delete(t, c) =>
+                before.get(*t).map(|img| img.iter().filter(|(id, v)| c.holds(**id, v)).map(|(id, _)| (*t, *id)).collect()).unwrap_or_default(),
+            _ => vec![],
+        };
+        let is_write = matches!(op, Op::TxInsert(..) | Op::TxUpdate(..) | Op::TxDelete(..) | Op::Insert(..) | Op::Update(..) | Op::Delete(..));
+        if is_write && (too_large || (ok && (!diff.is_empty() || !matched.is_empty()))) {
+            for (g, hd) in hds.iter_mut() {
+                if Some(*g) != actor && hd.open && !hd.first_touch.is_empty() {
+                    hd.foreign_write = true;
+                }
+            }
+        }
+        for (k, _, _) in &diff {
+            for (g, hd) in hds.iter_mut() {
+                if Some(*g) != actor && hd.open && hd.first_touch.contains_key(k) {
+                    hd.clobbered.insert(*k);
+                }
+            }
+        }
+        // which rollback (explicit, or the one inside a refused non-transactional statement) has just run over a statement
+        // that was refused at the cap
+        let mut after_failed_statement = false;
+        match op {
+            Op::TxUpdate(h, ..) | Op::TxDelete(h, ..) => {
+                if !actor_open && ok {
+                    out.viol("relational_engine.tx/finished_tx_accepted".into(), format!("{} accepted for a transaction that is not open", op.show()), step);
+                }
+                if !ok && !diff.is_empty() {
+                    out.viol(format!("relational_engine.{site}/failed_statement_changed_rows"),
+                             format!("{} returned {r_real} but changed {:?}", op.show(), diff), step);
+                }
+                if actor_open && (ok || too_large) {
+                    let hd = hds.get_mut(h).unwrap();
+                    if matched.iter().any(|k| taint.contains(k)) {
+                        hd.wrote_leftover_row = true;
+                    }
+                    if matched.iter().any(|k| hd.partial.contains(k)) {
+                        hd.rewrote_half_moved_row = true;
+                        out.hit("cap:transaction_went_on_writing_half_moved_row");
+                    }
+                    for k in &matched {
+                        let pre = before.get(k.0).and_then(|img| img.get(&k.1)).cloned();
+                        hd.first_touch.entry(*k).or_insert(pre);
+                    }
+                    for (k, pre, _) in &diff {
+                        hd.first_touch.entry(*k).or_insert_with(|| pre.clone());
+                    }
+                    if too_large {
+                        out.hit(&format!("cap:mid_row_failure:{site}"));
+                        if matched.len() > 1 {
+                            out.hit(&format!("cap:mid_row_failure:{site}:several_rows_matched"));
+                        }
+                        hd.partial.extend(matched.iter().copied());
+                        // the refused statement holds the locks it took
+                        for k in &matched {
+                            if w.eng.tx_manager().row_lock_holder(&World::tname(k.0), k.1) == Some(w.real_tx(*h)) {
+                                out.hit("cap:row_of_refused_statement_still_locked");
+                            }
+                        }
+                    }
+                }
+            },
+            _ => {},
+        }
+        match op {
+            Op::TxInsert(_, t, _) | Op::Insert(t, _) => {
+                let h = if let Op::TxInsert(h, ..) = op { Some(*h) } else { None };
+                if h.is_some() && !actor_open && ok {
+                    out.viol("relational_engine.tx/finished_tx_accepted".into(), format!("{} accepted for a transaction that is not open", op.show()), step);
+                }
+                if ok {
+                    if let (Some(h), true) = (h, actor_open) {
+                        let hd = hds.get_mut(&h).unwrap();
+                        for (k, pre, _) in &diff {
+                            hd.first_touch.entry(*k).or_insert_with(|| pre.clone());
+                        }
+                    }
+                } else if too_large {
+                    out.hit(&format!("cap:mid_row_failure:{site}"));
+                    // CANDIDATE FINDING of the unchanged code (`failed_insert_leaves_row_witness`): tx_insert records its
+                    // undo entry last, so the row of a refused insert stays — alive, in the hash indexes, not in the b-tree
+                    for (k, pre, post) in &diff {
+                        if k.0 == *t && pre.is_none() && post.is_some() {
+                            taint.insert(*k);
+                            out.hit("cap:observed:refused_insert_left_row");
+                        } else {
+                            out.viol(format!("relational_engine.{site}/failed_statement_changed_rows"),
+                                     format!("{} returned {r_real} but changed {k:?}: {pre:?} -> {post:?}", op.show()), step);
+                        }
+                    }
+                } else if !diff.is_empty() {
+                    out.viol(format!("relational_engine.{site}/failed_statement_changed_rows"),
+                             format!("{} returned {r_real} but changed {:?}", op.show(), diff), step);
+                }
+            },
+            Op::Update(..) | Op::Delete(..) => {
+                if too_large {
+                    out.hit(&format!("cap:mid_row_failure:{site}"));
+                    out.hit("cap:rollback_after_mid_row_failure:inside_non_transactional_statement");
+                    after_failed_statement = true;
+                }
+                if !ok && !diff.is_empty() {
+                    out.viol(format!("relational_engine.{site}/failed_statement_changed_rows"),
+                             format!("{} returned {r_real} (and rolled its internal transaction back) but changed {:?}", op.show(), diff), step);
+                }
+            },
+            Op::Commit(h) => {
+                if !actor_open {
+                    if ok {
+                        out.viol("relational_engine.tx/finished_tx_accepted".into(), format!("{} accepted for a transaction that is not open", op.show()), step);
+                    }
+                } else {
+                    if !ok {
+                        out.viol("relational_engine.commit/open_tx_refused".into(), format!("{} -> {r_real}", op.show()), step);
+                    }
+                    if !diff.is_empty() {
+                        out.viol("relational_engine.commit/changed_rows".into(), format!("commit changed rows {:?}", diff), step);
+                    }
+                    let hd = hds.get_mut(h).unwrap();
+                    hd.open = false;
+                    if !hd.partial.is_empty() {
+                        // the half-moved index entries of the refused statement's row are now permanent
+                        out.hit("cap:observed:commit_after_refused_statement");
+                        taint.extend(hd.partial.iter().copied());
+                    }
+                    if let Some(x) = w.handles.get_mut(h) {
+                        x.state = HState::Committed;
+                    }
+                }
+            },
+            Op::Rollback(h) => {
+                if !actor_open {
+                    if ok {
+                        out.viol("relational_engine.tx/finished_tx_accepted".into(), format!("{} accepted for a transaction that is not open", op.show()), step);
+                    }
+                    if !diff.is_empty() {
+                        out.viol("relational_engine.rollback/failed_statement_changed_rows".into(),
+                                 format!("{} on a finished transaction changed {:?}", op.show(), diff), step);
+                    }
+                } else {
+                    let hd = hds.get_mut(h).unwrap();
+                    hd.open = false;
+                    if let Some(x) = w.handles.get_mut(h) {
+                        x.state = HState::RolledBack;
+                    }
+                    after_failed_statement = !hd.partial.is_empty();
+                    if after_failed_statement {
+                        out.hit("cap:rollback_after_mid_row_failure");
+                    }
+                    if !ok {
+                        out.hit("cap:rollback_failed_returned");
+                        if hd.wrote_leftover_row {
+                            // consequence of the refused-insert observation: the undo of a delete / update of the leftover row
+                            // adds a b-tree key the row never had
+                            out.hit("cap:observed:rollback_refused_by_cap_after_writing_leftover_row");
+                            taint.extend(hd.first_touch.keys().copied());
+                        } else if hd.rewrote_half_moved_row {
+                            // the undo entry of the later statement re-adds a key the index had already lost to the refused one
+                            out.hit("cap:observed:rollback_refused_by_cap_after_rewriting_half_moved_row");
+                            taint.extend(hd.first_touch.keys().copied());
+                        } else if !hd.foreign_write {
+                            out.viol("relational_engine.rollback/failed_without_interference".into(),
+                                     format!("{} -> {r_real} although nobody else wrote anything between the transaction's first write and its rollback \
+                                              (max_btree_entries = {cap})", op.show()), step);
+                        } else {
+                            // CANDIDATE FINDING of the unchanged code: the undo re-adds a b-tree key through the capped
+                            // `btree_index_add`; another writer has used the capacity the transaction had freed
+                            out.hit("cap:observed:rollback_refused_by_cap_after_foreign_write");
+                            taint.extend(hd.first_touch.keys().copied());
+                        }
+                    }
+                    // snapshot oracle: the slab part of the undo does not depend on the cap
+                    for (k, pre) in &hd.first_touch {
+                        if hd.clobbered.contains(k) {
+                            continue;
+                        }
+                        let now_v = after.get(k.0).and_then(|img| img.get(&k.1)).cloned();
+                        if &now_v != pre {
+                            let class = if hd.partial.contains(k) { "row_not_restored_after_failed_statement" } else { "row_not_restored" };
+                            out.viol(format!("relational_engine.rollback/{class}"),
+                                     format!("row {k:?}: before the transaction's first write {pre:?}, after rollback {now_v:?}"), step);
+                        }
+                    }
+                    for (k, b, a) in &diff {
+                        if !hd.first_touch.contains_key(k) {
+                            out.viol("relational_engine.rollback/untouched_row_changed".into(),
+                                     format!("row {k:?} never written by the transaction changed {b:?} -> {a:?}"), step);
+                        }
+                    }
+                }
+            },
+            _ => {},
+        }
+
+        // ---- whole state: model comparison + index oracle after EVERY statement
+        let pending: BTreeSet<Key> = hds.values().filter(|hd| hd.open).flat_map(|hd| hd.partial.iter().copied()).collect();
+        let ends = matches!(op, Op::Commit(_) | Op::Rollback(_) | Op::Sweep) || step + 1 == ops.len();
+        let full = ends || too_large || matches!(op, Op::Insert(..) | Op::Update(..) | Op::Delete(..));
+        for t in 0..w.ntables {
+            let (hc, bc) = (w.hash_cols(t), w.btree_cols(t));
+            if let Some(m) = mdl!() {
+                let rows: Vec<(u64, Vec<i64>)> = after[t].iter().map(|(k, v)| (*k, v.clone())).collect();
+                let img = format!("img {}|H:{}|B:{}", rows_tok(&rows), World::nats(&hc), World::nats(&bc));
+                let a = m.ask(&format!("image {t}"));
+                if !cmp(&mut out, "image", step, &format!("image {t}"), &img, &a) {
+                    diverged = true;
+                }
+            }
+            let skip = |id: &u64| taint.contains(&(t, *id)) || pending.contains(&(t, *id));
+            for c in sweep_conds(&hc, &bc, P6) {
+                let key = match c.served_by(&hc, &bc) {
+                    Some((col, bt)) => (t, col, bt),
+                    None => (t, usize::MAX, false),
+                };
+                let real = w.select_rows(t, &c);
+                if let Ok(got_all) = &real {
+                    let got: Vec<(u64, Vec<i64>)> = got_all.iter().filter(|r| !skip(&r.0)).cloned().collect();
+                    let want: Vec<(u64, Vec<i64>)> = after[t].iter().filter(|(id, v)| !skip(id) && c.holds(**id, v)).map(|(k, v)| (*k, v.clone())).collect();
+                    if after_failed_statement {
+                        *out.counts.entry("cap:index_answer_checked_after_rollback_of_refused_statement").or_insert(0) += 1;
+                    }
+                    if got != want && !idx_reported.contains(&key) {
+                        idx_reported.insert(key);
+                        let ids: Vec<u64> = got.iter().map(|r| r.0).collect();
+                        let mut uniq = ids.clone();
+                        uniq.dedup();
+                        let missing = want.iter().any(|r| !ids.contains(&r.0));
+                        let dup = uniq.len() != ids.len();
+                        let kind = match (after_failed_statement, missing, dup) {
+                            (true, true, _) => "index_entry_not_restored_after_failed_statement",
+                            (true, false, true) => "duplicate_row_in_index_answer_after_failed_statement",
+                            (true, false, false) => "index_answer_wrong_after_failed_statement",
+                            (false, true, _) => "index_answer_missing_row",
+                            (false, false, true) => "duplicate_row_in_index_answer",
+                            (false, false, false) => "index_answer_wrong",
+                        };
+                        let extra = if after_failed_statement {
+                            format!("; the transaction rolled back by {} had a statement refused at the b-tree entry cap (max_btree_entries = {cap}) \
+                                     part-way through a row: the index entries that statement had already moved must be put back", op.show())
+                        } else {
+                            String::new()
+                        };
+                        out.viol(format!("relational_engine.{site}/{kind}"),
+                                 format!("select t{t} {} through the index = [{}], full scan + filter = [{}]{extra}", c.tok(), rows_tok(&got), rows_tok(&want)), step);
+                    }
+                }
+                // the model mirrors the half-moved state of a refused statement entry by entry: same answers, every row
+                let ask_model = full && (!matches!(c, Cond::And(..) | Cond::Or(..)) || ends);
+                if ask_model {
+                    if let Some(m) = mdl!() {
+                        let real_s = match &real {
+                            Ok(r) => format!("rows {}", rows_tok(r)),
+                            Err(e) => format!("err {e}"),
+                        };
+                        let q = format!("select {t} {}", c.tok());
+                        let a = m.ask(&q);
+                        if !cmp(&mut out, "query", step, &q, &real_s, &a) {
+                            diverged = true;
+                        }
+                    }
+                }
+            }
+        }
+        if full {
+            let hs: Vec<(u64, u64)> = w.handles.values().map(|h| (h.real, h.model)).collect();
+            for (real, mid) in hs {
+                if let Some(m) = mdl!() {
+                    let q = format!("held {mid}");
+                    let a = m.ask(&q);
+                    let r = format!("n {}", w.eng.tx_manager().locks_held_by(real));
+                    if !cmp(&mut out, "locks", step, &q, &r, &a) {
+                        diverged = true;
+                    }
+                }
+            }
+            if let Some(m) = mdl!() {
+                let a = m.ask("nlocks");
+                let r = format!("n {}", w.eng.tx_manager().active_lock_count());
+                if !cmp(&mut out, "locks", step, "nlocks", &r, &a) {
+                    diverged = true;
+                }
+            }
+        }
+    }
+    out
+}
+
+fn absorb_cap(rep: &mut Report, tally: &mut Tally, stream: &str, cap: usize, ops: &[Op], out: Outcome) {
+    let key: String = format!("cap{cap}|") + &ops.iter().map(|o| o.show()).collect::<Vec<_>>().join("|");
+    rep.case(stream, if out.nontrivial { Some(&key) } else { None });
+    for h in &out.hits {
+        rep.hit(h);
+    }
+    for (k, n) in &out.compared {
+        rep.hit_n(&format!("compared:{k}"), *n);
+    }
+    for (k, n) in &out.counts {
+        rep.hit_n(k, *n);
+    }
+    for (s, input, imp, mdl) in out.disagreements {
+        rep.disagree(&format!("{stream}.{s}"), input, &imp, &mdl);
+    }
+    for (class, what, step) in out.violations {
+        let n = tally.per_class.entry(class.clone()).or_insert(0);
+        *n += 1;
+        rep.hit(&format!("violation:{class}"));
+        if *n > 2 {
+            continue;
+        }
+        let script: Vec<Op> = ops[..=step.min(ops.len() - 1)].to_vec();
+        let cls = class.clone();
+        let script = shrink_list(&script, &mut |cand: &[Op]| exec_cap(cand, cap, None).violations.iter().any(|v| v.0 == cls));
+        let what2 = exec_cap(&script, cap, None).violations.into_iter().find(|v| v.0 == class).map(|v| v.1).unwrap_or(what);
+        rep.violation(&class, &what2, cap_json(cap, &script));
+    }
+}
+
+/// directed scripts on capped engines (run first)
+fn cap_directed() -> Vec<(&'static str, usize, Vec<Op>)> {
+    use Op::*;
+    // table 0: hash and b-tree index on c0; rows 1 and 2 share the key 1, row 3 holds 2: two keys
+    let shared = |hash: &[usize], bt: usize| {
+        let mut v = vec![CreateTable];
+        for c in hash {
+            v.push(CreateIndex(0, *c));
+        }
+        v.push(CreateBtree(0, bt));
+        v
+    };
+    let rows3 = |v: &mut Vec<Op>| {
+        v.push(Insert(0, vec![1, 0]));
+        v.push(Insert(0, vec![1, 0]));
+        v.push(Insert(0, vec![2, 0]));
+    };
+    let mut out = vec![];
+    // the minimal history: the b-tree is full (keys 1, 2), row 1 leaves a key it shares for a key that is new — the hash
+    // entry has moved and the old b-tree entry is gone when btree_index_add refuses; rollback must put both back
+    let mut s = shared(&[0], 0);
+    rows3(&mut s);
+    s.extend([Begin(0), TxUpdate(0, 0, Cond::Id(1), vec![(0, 3)]), Rollback(0), Sweep]);
+    out.push(("cap_update_refused_mid_row_then_rollback", 2, s));
+    // b-tree only / hash on both columns, both in the SET list
+    let mut s = shared(&[], 0);
+    rows3(&mut s);
+    s.extend([Begin(0), TxUpdate(0, 0, Cond::Id(2), vec![(0, 4)]), Rollback(0), Sweep]);
+    out.push(("cap_update_refused_btree_only_then_rollback", 2, s));
+    let mut s = shared(&[0, 1], 1);
+    s.extend([Insert(0, vec![0, 1]), Insert(0, vec![0, 1]), Insert(0, vec![5, 2]),
+              Begin(0), TxUpdate(0, 0, Cond::Id(1), vec![(0, 4), (1, 3)]), Rollback(0), Sweep]);
+    out.push(("cap_update_refused_after_two_hash_moves_then_rollback", 2, s));
+    // several rows matched (the first one is refused), found through the index
+    let mut s = shared(&[0], 0);
+    rows3(&mut s);
+    s.extend([Begin(0), TxUpdate(0, 0, Cond::Eq(0, 1), vec![(0, 5)]), Rollback(0), Sweep]);
+    out.push(("cap_update_refused_several_rows_then_rollback", 2, s));
+    // earlier statements of the same transaction, then the refused one, then another statement on the same row
+    let mut s = shared(&[0], 0);
+    rows3(&mut s);
+    s.extend([Begin(0), TxUpdate(0, 0, Cond::Id(3), vec![(1, 4)]), TxDelete(0, 0, Cond::Id(2)), TxUpdate(0, 0, Cond::Id(1), vec![(0, 3)]),
+              TxUpdate(0, 0, Cond::Id(1), vec![(0, 2)]), Rollback(0), Sweep]);
+    out.push(("cap_refused_update_between_other_statements_then_rollback", 2, s));
+    // the same row refused twice, and a delete of the half-moved row, then rollback
+    let mut s = shared(&[0], 0);
+    rows3(&mut s);
+    s.extend([Begin(0), TxUpdate(0, 0, Cond::Id(1), vec![(0, 3)]), TxUpdate(0, 0, Cond::Id(1), vec![(0, 4)]), TxDelete(0, 0, Cond::Id(1)), Rollback(0), Sweep]);
+    out.push(("cap_update_refused_twice_then_delete_then_rollback", 2, s));
+    // the non-transactional statement rolls itself back
+    let mut s = shared(&[0], 0);
+    rows3(&mut s);
+    s.extend([Update(0, Cond::Id(1), vec![(0, 3)]), Sweep, Update(0, Cond::All, vec![(0, 4)]), Sweep]);
+    out.push(("cap_plain_update_refused_rolls_itself_back", 2, s));
+    // two transactions: B's refused statement next to A's open work; both roll back
+    let mut s = shared(&[0], 0);
+    rows3(&mut s);
+    s.extend([Begin(0), Begin(1), TxUpdate(0, 0, Cond::Id(3), vec![(1, 5)]), TxUpdate(1, 0, Cond::Id(1), vec![(0, 3)]),
+              TxUpdate(0, 0, Cond::Id(2), vec![(0, 5)]), Rollback(1), Sweep, Rollback(0), Sweep]);
+    out.push(("cap_two_transactions_each_refused_then_rollback", 2, s));
+    // the cap is engine wide: the other table's tree holds the capacity
+    let mut s = vec![CreateTable, CreateTable, CreateIndex(0, 0), CreateBtree(0, 0), CreateBtree(1, 1)];
+    s.extend([Insert(1, vec![0, 1]), Insert(1, vec![0, 2]), Insert(0, vec![3, 0]), Insert(0, vec![3, 0]),
+              Begin(0), TxUpdate(0, 0, Cond::Id(2), vec![(0, 4)]), Rollback(0), Sweep]);
+    out.push(("cap_shared_by_two_tables_update_refused_then_rollback", 3, s));
+    // controls: a move that frees the key it needs, a move to an existing key, a delete that frees capacity for an insert
+    let mut s = shared(&[0], 0);
+    rows3(&mut s);
+    s.extend([Begin(0), TxUpdate(0, 0, Cond::Id(3), vec![(0, 3)]), TxUpdate(0, 0, Cond::Id(1), vec![(0, 3)]), Rollback(0), Sweep,
+              Begin(1), TxDelete(1, 0, Cond::Id(3)), TxInsert(1, 0, vec![4, 4]), Commit(1), Sweep]);
+    out.push(("cap_control_moves_within_capacity", 2, s));
+    // refused statement, then COMMIT (observation: the half-moved row becomes permanent)
+    let mut s = shared(&[0], 0);
+    rows3(&mut s);
+    s.extend([Begin(0), TxUpdate(0, 0, Cond::Id(1), vec![(0, 3)]), Commit(0), Sweep]);
+    out.push(("cap_update_refused_then_commit", 2, s));
+    // observations of the unchanged code: a refused insert leaves its row; capacity freed by A is used by somebody else
+    let mut s = shared(&[0], 0);
+    s.extend([Insert(0, vec![1, 0]), Begin(0), TxInsert(0, 0, vec![3, 0]), Rollback(0), Sweep, Insert(0, vec![4, 0]), Sweep]);
+    out.push(("cap_insert_refused_then_rollback", 1, s));
+    let mut s = shared(&[], 0);
+    s.extend([Insert(0, vec![1, 0]), Insert(0, vec![2, 0]), Begin(0), TxDelete(0, 0, Cond::Id(1)), Insert(0, vec![3, 0]), Rollback(0), Sweep]);
+    out.push(("cap_freed_capacity_used_by_other_writer_then_rollback", 2, s));
+    out
+}
+
+/// what the generator believes the capped engine looks like (one b-tree column per table); used only to AIM statements
+struct CapSim {
+    rows: Vec<BTreeMap<u64, Vec<i64>>>,
+    next_id: Vec<u64>,
+    bcol: Vec<usize>,
+    owner: BTreeMap<Key, usize>,
+    undo: BTreeMap<usize, Vec<(Key, Option<Vec<i64>>)>>,
+}
+
+impl CapSim {
+    fn keys(&self) -> usize {
+        (0..self.rows.len()).map(|t| self.rows[t].values().map(|v| v[self.bcol[t]]).collect::<BTreeSet<i64>>().len()).sum()
+    }
+    fn free_rows(&self, h: Option<usize>, t: usize) -> Vec<(u64, Vec<i64>)> {
+        self.rows[t].iter().filter(|(id, _)| self.owner.get(&(t, **id)).is_none_or(|o| Some(*o) == h)).map(|(id, v)| (*id, v.clone())).collect()
+    }
+    fn write(&mut self, h: Option<usize>, k: Key, new: Option<Vec<i64>>) {
+        let old = self.rows[k.0].get(&k.1).cloned();
+        if let Some(h) = h {
+            self.undo.entry(h).or_default().push((k, old));
+            self.owner.insert(k, h);
+        }
+        match new {
+            Some(v) => { self.rows[k.0].insert(k.1, v); },
+            None => { self.rows[k.0].remove(&k.1); },
+        }
+    }
+    /// would `btree_index_add` of `v` in table `t` be refused once row `id` has left its key?
+    fn refused(&self, cap: usize, t: usize, id: Option<u64>, v: i64) -> bool {
+        let b = self.bcol[t];
+        let mut rows = self.rows.clone();
+        if let Some(id) = id {
+            rows[t].remove(&id);
+        }
+        let sim = CapSim { rows, next_id: vec![], bcol: self.bcol.clone(), owner: BTreeMap::new(), undo: BTreeMap::new() };
+        !sim.rows[t].values().any(|r| r[b] == v) && sim.keys() >= cap
+    }
+}
+
+/// random script on a capped engine: 1-2 tables with hash indexes on any columns and ONE b-tree column each (which of
+/// two b-tree columns the engine moves first is a HashSet's iteration order), committed rows that fill the b-tree to
+/// the cap or one below it, then 2-3 interleaved transactions and non-transactional statements.  Half of the updates
+/// are aimed at the cap: a row that shares its key with another row is moved to a key the tree does not have.
+fn gen_cap_script(rng: &mut Rng, len: usize) -> (usize, Vec<Op>) {
+    let nt = if rng.chance(1, 3) { 2 } else { 1 };
+    let mut ops = vec![];
+    let mut sim = CapSim { rows: vec![], next_id: vec![], bcol: vec![], owner: BTreeMap::new(), undo: BTreeMap::new() };
+    for t in 0..nt {
+        ops.push(Op::CreateTable);
+        for c in 0..NCOLS {
+            if rng.chance(3, 5) {
+                ops.push(Op::CreateIndex(t, c));
+            }
+        }
+        let b = rng.below(NCOLS as u64) as usize;
+        ops.push(Op::CreateBtree(t, b));
+        sim.rows.push(BTreeMap::new());
+        sim.next_id.push(1);
+        sim.bcol.push(b);
+    }
+    for t in 0..nt {
+        // few distinct keys, shared by several rows
+        let ks: Vec<i64> = (0..rng.range(1, 3)).map(|_| *rng.pick(P6)).collect();
+        for _ in 0..rng.range(2, 5) {
+            let mut v = gen_vals(rng, P6);
+            v[sim.bcol[t]] = *rng.pick(&ks);
+            ops.push(Op::Insert(t, v.clone()));
+            let id = sim.next_id[t];
+            sim.next_id[t] += 1;
+            sim.write(None, (t, id), Some(v));
+        }
+    }
+    let cap = sim.keys() + rng.below(2) as usize;
+    let max_tx = rng.range(2, 3) as usize;
+    let mut next_h = 0usize;
+    let mut open: Vec<usize> = vec![];
+    for _ in 0..len {
+        let t = rng.below(nt as u64) as usize;
+        let b = sim.bcol[t];
+        let roll = rng.below(100);
+        if open.is_empty() || (open.len() < max_tx && roll < 10) {
+            ops.push(Op::Begin(next_h));
+            sim.undo.insert(next_h, vec![]);
+            open.push(next_h);
+            next_h += 1;
+            continue;
+        }
+        let h = *rng.pick(&open);
+        // an update (by `who`) aimed at the cap, or a random one; applied to the simulation when it is expected to succeed
+        let gen_update = |rng: &mut Rng, sim: &mut CapSim, who: Option<usize>| -> (Cond, Vec<(usize, i64)>) {
+            let free = sim.free_rows(who, t);
+            if !free.is_empty() && rng.chance(3, 5) {
+                // aimed: prefer a row whose key is shared, move it to a key the table's tree does not hold
+                let shared: Vec<&(u64, Vec<i64>)> = free.iter().filter(|(id, v)| sim.rows[t].iter().any(|(j, x)| j != id && x[b] == v[b])).collect();
+                let (id, vals) = if !shared.is_empty() && rng.chance(3, 4) { (*rng.pick(&shared)).clone() } else { rng.pick(&free).clone() };
+                let fresh: Vec<i64> = P6.iter().copied().filter(|x| !sim.rows[t].values().any(|r| r[b] == *x)).collect();
+                let nv = if !fresh.is_empty() && rng.chance(3, 4) { *rng.pick(&fresh) } else { *rng.pick(P6) };
+                let mut upd = vec![(b, nv)];
+                if rng.chance(1, 3) {
+                    upd.push(((b + 1) % NCOLS, *rng.pick(P6)));
+                    upd.sort();
+                }
+                let cond = match rng.below(6) {
+                    0..=3 => Cond::Id(id),
+                    4 => Cond::Eq(b, vals[b]),
+                    _ => Cond::Ge((b + 1) % NCOLS, vals[(b + 1) % NCOLS]),
+                };
+                (cond, upd)
+            } else {
+                (gen_cond(rng, sim.next_id[t], P6), gen_upd(rng, P6))
+            }
+        };
+        let apply_update = |sim: &mut CapSim, who: Option<usize>, cond: &Cond, upd: &[(usize, i64)]| {
+            let ids: Vec<u64> = sim.rows[t].iter().filter(|(id, v)| cond.holds(**id, v)).map(|(id, _)| *id).collect();
+            if ids.iter().any(|id| sim.owner.get(&(t, *id)).is_some_and(|o| Some(*o) != who)) {
+                return;
+            }
+            if let (Some(first), Some((_, nv))) = (ids.first(), upd.iter().find(|(c, _)| *c == b)) {
+                if sim.refused(cap, t, Some(*first), *nv) {
+                    return;
+                }
+            }
+            for id in ids {
+                let mut v = sim.rows[t][&id].clone();
+                for (c, x) in upd {
+                    v[*c] = *x;
+                }
+                sim.write(who, (t, id), Some(v));
+            }
+        };
+        match roll {
+            0..=39 => {
+                let (c, u) = gen_update(rng, &mut sim, Some(h));
+                apply_update(&mut sim, Some(h), &c, &u);
+                ops.push(Op::TxUpdate(h, t, c, u));
+            },
+            40..=47 => {
+                let v = gen_vals(rng, P6);
+                if !sim.refused(cap, t, None, v[b]) {
+                    let id = sim.next_id[t];
+                    sim.write(Some(h), (t, id), Some(v.clone()));
+                }
+                sim.next_id[t] += 1;
+                ops.push(Op::TxInsert(h, t, v));
+            },
+            48..=57 => {
+                let c = gen_cond(rng, sim.next_id[t], P6);
+                let ids: Vec<u64> = sim.rows[t].iter().filter(|(id, v)| c.holds(**id, v)).map(|(id, _)| *id).collect();
+                if !ids.iter().any(|id| sim.owner.get(&(t, *id)).is_some_and(|o| *o != h)) {
+                    for id in ids {
+                        sim.write(Some(h), (t, id), None);
+                    }
+                }
+                ops.push(Op::TxDelete(h, t, c));
+            },
+            58..=75 => {
+                if let Some(log) = sim.undo.remove(&h) {
+                    for (k, old) in log.into_iter().rev() {
+                        match old {
+                            Some(v) => { sim.rows[k.0].insert(k.1, v); },
+                            None => { sim.rows[k.0].remove(&k.1); },
+                        }
+                    }
+                }
+                sim.owner.retain(|_, o| *o != h);
+                open.retain(|x| *x != h);
+                ops.push(Op::Rollback(h));
+            },
+            76..=80 => {
+                sim.undo.remove(&h);
+                sim.owner.retain(|_, o| *o != h);
+                open.retain(|x| *x != h);
+                ops.push(Op::Commit(h));
+            },
+            81..=88 => {
+                let (c, u) = gen_update(rng, &mut sim, None);
+                apply_update(&mut sim, None, &c, &u);
+                ops.push(Op::Update(t, c, u));
+            },
+            89..=91 => {
+                let v = gen_vals(rng, P6);
+                if !sim.refused(cap, t, None, v[b]) {
+                    let id = sim.next_id[t];
+                    sim.write(None, (t, id), Some(v.clone()));
+                }
+                sim.next_id[t] += 1;
+                ops.push(Op::Insert(t, v));
+            },
+            92..=94 => {
+                let c = gen_cond(rng, sim.next_id[t], P6);
+                let ids: Vec<u64> = sim.rows[t].iter().filter(|(id, v)| c.holds(**id, v)).map(|(id, _)| *id).collect();
+                if !ids.iter().any(|id| sim.owner.contains_key(&(t, *id))) {
+                    for id in ids {
+                        sim.write(None, (t, id), None);
+                    }
+                }
+                ops.push(Op::Delete(t, c));
+            },
+            95..=96 => ops.push(Op::TxSelect(h, t, gen_cond(rng, sim.next_id[t], P6))),
+            _ => ops.push(Op::Sweep),
+        }
+    }
+    rng.shuffle(&mut open);
+    for h in open {
+        ops.push(if rng.chance(3, 4) { Op::Rollback(h) } else { Op::Commit(h) });
+    }
+    ops.push(Op::Sweep);
+    (cap, ops)
+}
+
 // ------------------------------------------------------------------ main
 
 struct Tally {
@@ -3168,6 +3934,16 @@ fn main() {
     };
     // 0. regression cases below statement granularity (fcb86137), scheduled through the yield sites: run first
     let race_hook_seen = race_scheduled(&mut rep, &mut model, &mut tally);
+    // 0b. statements refused part-way at the b-tree entry cap, then rollback (`CapModel.lean`, Props6): directed, run first
+    for (name, cap, ops) in cap_directed() {
+        let out = exec_cap(&ops, cap, Some(&mut model));
+        rep.hit(&format!("directed:{name}"));
+        if name == "cap_update_refused_mid_row_then_rollback" {
+            rep.sample(json!({"scenario": name, "max_btree_entries": cap, "script": ops.iter().map(|o| o.show()).collect::<Vec<_>>(),
+                              "violations": out.violations.iter().map(|v| v.0.clone()).collect::<Vec<_>>()}));
+        }
+        absorb_cap(&mut rep, &mut tally, "cap_directed", cap, &ops, out);
+    }
     let mut quick_outs: Vec<Outcome> = dir.iter().filter(|d| !has_tick(&d.2)).map(|d| exec_script(&d.2, d.1, Some(&mut model))).collect();
     quick_outs.reverse();
     let mut sleeper_outs = dir_sleepers.join().expect("directed sleepers panicked");
@@ -3259,6 +4035,20 @@ fn main() {
         }
         absorb(&mut rep, &mut tally, "interleave_nulls", cfg, &ops, out, true);
     }
+    // 3d. engines with a b-tree entry cap of a few keys: statements refused part-way through a row, rollback, index sweep
+    let mut rng = root.fork("cap");
+    let n = if args.thorough { 2500 } else { 170 };
+    let cap_t0 = Instant::now();
+    for i in 0..n {
+        let len = rng.range(8, 26) as usize;
+        let (cap, ops) = gen_cap_script(&mut rng, len);
+        let out = exec_cap(&ops, cap, Some(&mut model));
+        if i < 1 {
+            rep.sample(json!({"stream": "cap", "max_btree_entries": cap, "script": ops.iter().map(|o| o.show()).collect::<Vec<_>>()}));
+        }
+        absorb_cap(&mut rep, &mut tally, "cap", cap, &ops, out);
+    }
+    eprintln!("cap stream: {:?}", cap_t0.elapsed());
     // 4. lock / transaction timeouts, 5. lock takeover with the old holder ending first (real sleeps; started above)
     let mut outs = rnd_sleepers.join().expect("random sleepers panicked");
     outs.reverse();
